@@ -157,57 +157,83 @@ namespace ExpectCalc
 open GoblVerif.Generated.Calc
 
 theorem calls_TotalCalculator_Calculate_as_modelled : calls_TotalCalculator_Calculate =
-    ["Zero", "Def", "make", "mapTaxLines", "prepareLines", "removeIncludedTaxes", "calculateBaseRateTotals", "Calculate"] := by decide
+    ["Zero", "Def", "make", "mapTaxLines", "prepareLines", "removeIncludedTaxes", "calculateBaseRateTotals", "Calculate"] := rfl
 theorem conds_TotalCalculator_Calculate_as_modelled : conds_TotalCalculator_Calculate =
-    ["err := tc.prepareLines(taxLines); err != nil", "err := tc.removeIncludedTaxes(taxLines); err != nil"] := by decide
+    ["err := tc.prepareLines(taxLines); err != nil", "err := tc.removeIncludedTaxes(taxLines); err != nil"] := rfl
+theorem stmts_TotalCalculator_Calculate_as_modelled : stmts_TotalCalculator_Calculate =
+    ["tc.zero = tc.Currency.Def().Zero()", "t.Categories = make([]*CategoryTotal, 0)", "t.Sum = tc.zero", "taxLines := mapTaxLines(tc.Lines)", "err := tc.prepareLines(taxLines)", "return err", "err := tc.removeIncludedTaxes(taxLines)", "return err", "return nil"] := rfl
 theorem calls_TotalCalculator_prepareLines_as_modelled : calls_TotalCalculator_prepareLines =
-    ["calculate", "RescaleUp", "Exp"] := by decide
+    ["calculate", "RescaleUp", "Exp"] := rfl
 theorem conds_TotalCalculator_prepareLines_as_modelled : conds_TotalCalculator_prepareLines =
-    ["err := combo.calculate(tc.Country, tc.Tags, tc.Date); err != nil"] := by decide
+    ["err := combo.calculate(tc.Country, tc.Tags, tc.Date); err != nil"] := rfl
+theorem stmts_TotalCalculator_prepareLines_as_modelled : stmts_TotalCalculator_prepareLines =
+    ["err := combo.calculate(tc.Country, tc.Tags, tc.Date)", "return err", "tl.total = tl.total.RescaleUp(tc.zero.Exp() + 2)", "return nil"] := rfl
 theorem calls_TotalCalculator_removeIncludedTaxes_as_modelled : calls_TotalCalculator_removeIncludedTaxes =
-    ["IsEmpty", "Get", "WithMessage", "String", "Remove"] := by decide
+    ["IsEmpty", "Get", "WithMessage", "String", "Remove"] := rfl
 theorem conds_TotalCalculator_removeIncludedTaxes_as_modelled : conds_TotalCalculator_removeIncludedTaxes =
-    ["tc.Includes.IsEmpty()", "c := tl.taxes.Get(tc.Includes); c != nil", "c.retained", "c.Percent == nil"] := by decide
+    ["tc.Includes.IsEmpty()", "c := tl.taxes.Get(tc.Includes); c != nil", "c.retained", "c.Percent == nil"] := rfl
+theorem stmts_TotalCalculator_removeIncludedTaxes_as_modelled : stmts_TotalCalculator_removeIncludedTaxes =
+    ["return nil", "c := tl.taxes.Get(tc.Includes)", "return ErrInvalidPricesInclude.WithMessage(\"cannot include retained category '%s'\", tc.Includes.String())", "tl.total = tl.total.Remove(*c.Percent)", "return nil"] := rfl
 theorem calls_TotalCalculator_calculateBaseRateTotals_as_modelled : calls_TotalCalculator_calculateBaseRateTotals =
-    ["rateTotalFor", "matchRoundingPrecision", "Add"] := by decide
+    ["rateTotalFor", "matchRoundingPrecision", "Add"] := rfl
 theorem conds_TotalCalculator_calculateBaseRateTotals_as_modelled : conds_TotalCalculator_calculateBaseRateTotals =
-    [] := by decide
+    [] := rfl
+theorem stmts_TotalCalculator_calculateBaseRateTotals_as_modelled : stmts_TotalCalculator_calculateBaseRateTotals =
+    ["rt := t.rateTotalFor(c, tc.zero)", "rt.Base = matchRoundingPrecision(tc.Rounding, rt.Base, tl.total)", "rt.Base = rt.Base.Add(tl.total)"] := rfl
 theorem calls_Total_rateTotalFor_as_modelled : calls_Total_rateTotalFor =
-    ["newCategoryTotal", "append", "matches", "newRateTotal", "append"] := by decide
+    ["newCategoryTotal", "append", "matches", "newRateTotal", "append"] := rfl
 theorem conds_Total_rateTotalFor_as_modelled : conds_Total_rateTotalFor =
-    ["ct.Code == c.Category", "catTotal == nil", "rt.matches(c)", "rateTotal == nil"] := by decide
+    ["ct.Code == c.Category", "catTotal == nil", "rt.matches(c)", "rateTotal == nil"] := rfl
+theorem stmts_Total_rateTotalFor_as_modelled : stmts_Total_rateTotalFor =
+    ["catTotal = ct", "catTotal = newCategoryTotal(c, zero)", "t.Categories = append(t.Categories, catTotal)", "rateTotal = rt", "rateTotal = newRateTotal(c, zero)", "catTotal.Rates = append(catTotal.Rates, rateTotal)", "return rateTotal"] := rfl
 theorem calls_newRateTotal_as_modelled : calls_newRateTotal =
-    ["new"] := by decide
+    ["new"] := rfl
 theorem conds_newRateTotal_as_modelled : conds_newRateTotal =
-    ["c.Percent != nil", "c.Surcharge != nil"] := by decide
+    ["c.Percent != nil", "c.Surcharge != nil"] := rfl
+theorem stmts_newRateTotal_as_modelled : stmts_newRateTotal =
+    ["rt := new(RateTotal)", "rt.Key = c.Rate", "rt.Country = c.Country", "rt.Ext = c.Ext", "pc := *c.Percent", "rt.Percent = &pc", "rt.Base = zero", "rt.Amount = zero", "rt.Surcharge = &RateTotalSurcharge{ Percent: *c.Surcharge, Amount: zero, }", "return rt"] := rfl
 theorem calls_newCategoryTotal_as_modelled : calls_newCategoryTotal =
-    ["new", "make"] := by decide
+    ["new", "make"] := rfl
 theorem conds_newCategoryTotal_as_modelled : conds_newCategoryTotal =
-    [] := by decide
+    [] := rfl
+theorem stmts_newCategoryTotal_as_modelled : stmts_newCategoryTotal =
+    ["ct := new(CategoryTotal)", "ct.Code = c.Category", "ct.Rates = make([]*RateTotal, 0)", "ct.Amount = zero", "ct.amount = zero", "ct.Retained = c.retained", "return ct"] := rfl
 theorem calls_RateTotal_matches_as_modelled : calls_RateTotal_matches =
-    ["Equals", "Equals", "Equals"] := by decide
+    ["Equals", "Equals", "Equals"] := rfl
 theorem conds_RateTotal_matches_as_modelled : conds_RateTotal_matches =
-    ["!rt.Ext.Equals(c.Ext)", "rt.Country != c.Country", "rt.Percent == nil || c.Percent == nil", "rt.Surcharge != nil || c.Surcharge != nil", "rt.Surcharge == nil || c.Surcharge == nil", "!rt.Surcharge.Percent.Equals(*c.Surcharge)"] := by decide
+    ["!rt.Ext.Equals(c.Ext)", "rt.Country != c.Country", "rt.Percent == nil || c.Percent == nil", "rt.Surcharge != nil || c.Surcharge != nil", "rt.Surcharge == nil || c.Surcharge == nil", "!rt.Surcharge.Percent.Equals(*c.Surcharge)"] := rfl
+theorem stmts_RateTotal_matches_as_modelled : stmts_RateTotal_matches =
+    ["return false", "return false", "return rt.Percent == nil && c.Percent == nil", "return false", "return false", "return rt.Percent.Equals(*c.Percent)"] := rfl
 theorem calls_Total_Calculate_as_modelled : calls_Total_Calculate =
-    ["Zero", "Def", "calculateFinalSum", "round"] := by decide
+    ["Zero", "Def", "calculateFinalSum", "round"] := rfl
 theorem conds_Total_Calculate_as_modelled : conds_Total_Calculate =
-    ["t == nil"] := by decide
+    ["t == nil"] := rfl
+theorem stmts_Total_Calculate_as_modelled : stmts_Total_Calculate =
+    ["zero := cur.Def().Zero()"] := rfl
 theorem calls_Total_calculateBaseCategoryTotal_as_modelled : calls_Total_calculateBaseCategoryTotal =
-    ["Of", "matchRoundingPrecision", "Add", "Of", "matchRoundingPrecision", "Add"] := by decide
+    ["Of", "matchRoundingPrecision", "Add", "Of", "matchRoundingPrecision", "Add"] := rfl
 theorem conds_Total_calculateBaseCategoryTotal_as_modelled : conds_Total_calculateBaseCategoryTotal =
-    ["rt.Percent == nil", "rt.Surcharge != nil", "ct.Surcharge == nil"] := by decide
+    ["rt.Percent == nil", "rt.Surcharge != nil", "ct.Surcharge == nil"] := rfl
+theorem stmts_Total_calculateBaseCategoryTotal_as_modelled : stmts_Total_calculateBaseCategoryTotal =
+    ["ct.Amount = zero", "ct.Surcharge = nil", "rt.Amount = zero", "base := rt.Base", "rt.Amount = rt.Percent.Of(rt.Base)", "ct.Amount = matchRoundingPrecision(rr, ct.Amount, rt.Amount)", "ct.Amount = ct.Amount.Add(rt.Amount)", "rt.Surcharge.Amount = rt.Surcharge.Percent.Of(base)", "ct.Surcharge = &zero", "a := rt.Surcharge.Amount", "x := *ct.Surcharge", "x = matchRoundingPrecision(rr, x, a)", "x = x.Add(a)", "ct.Surcharge = &x"] := rfl
 theorem calls_Total_calculateFinalSum_as_modelled : calls_Total_calculateFinalSum =
-    ["calculateBaseCategoryTotal", "matchRoundingPrecision", "Subtract", "Subtract", "Add", "Add"] := by decide
+    ["calculateBaseCategoryTotal", "matchRoundingPrecision", "Subtract", "Subtract", "Add", "Add"] := rfl
 theorem conds_Total_calculateFinalSum_as_modelled : conds_Total_calculateFinalSum =
-    ["ct.Retained", "ct.Surcharge != nil", "ct.Surcharge != nil"] := by decide
+    ["ct.Retained", "ct.Surcharge != nil", "ct.Surcharge != nil"] := rfl
+theorem stmts_Total_calculateFinalSum_as_modelled : stmts_Total_calculateFinalSum =
+    ["t.Sum = zero", "t.Sum = matchRoundingPrecision(rr, t.Sum, ct.Amount)", "t.Sum = t.Sum.Subtract(ct.Amount)", "t.Sum = t.Sum.Subtract(*ct.Surcharge)", "t.Sum = t.Sum.Add(ct.Amount)", "t.Sum = t.Sum.Add(*ct.Surcharge)"] := rfl
 theorem calls_matchRoundingPrecision_as_modelled : calls_matchRoundingPrecision =
-    ["MatchPrecision"] := by decide
+    ["MatchPrecision"] := rfl
 theorem conds_matchRoundingPrecision_as_modelled : conds_matchRoundingPrecision =
-    [] := by decide
+    [] := rfl
+theorem stmts_matchRoundingPrecision_as_modelled : stmts_matchRoundingPrecision =
+    ["return a", "return a.MatchPrecision(b)"] := rfl
 theorem calls_Amount_Remove_as_modelled : calls_Amount_Remove =
-    ["Divide", "Factor"] := by decide
+    ["Divide", "Factor"] := rfl
 theorem conds_Amount_Remove_as_modelled : conds_Amount_Remove =
-    [] := by decide
+    [] := rfl
+theorem stmts_Amount_Remove_as_modelled : stmts_Amount_Remove =
+    ["return a.Divide(percent.Factor())"] := rfl
 
 end ExpectCalc
 
